@@ -26,6 +26,8 @@ def main():
     meta = {"property": pid, "name": name, "ran": []}
     nb = {"NUMBA_CACHE_DIR": os.path.join(wt, ".nbcache")}
     if "--skip-confirm" not in sys.argv:
+        import fcntl
+        lockf = open(os.path.join(wt, ".confirm.lock"), "w"); fcntl.flock(lockf, fcntl.LOCK_EX)   # one confirmation per worktree at a time
         sh("git checkout -- . ", cwd=wt); shutil.rmtree(nb["NUMBA_CACHE_DIR"], ignore_errors=True)
         rc0, out0 = sh(f"{PY} {mdir}/demo.py", cwd=wt, env=nb)
         rc, out = sh(f"git apply {mdir}/patch.diff", cwd=wt)
@@ -37,6 +39,7 @@ def main():
         meta["confirm"] = {"demo_clean_exit": rc0, "demo_mutant_exit": rc1, "pytest_tail": outt.strip().split("\n")[-1], "demo_mutant_tail": out1.strip().split("\n")[-3:]}
         print("confirm:", meta["confirm"]["demo_clean_exit"], meta["confirm"]["demo_mutant_exit"], meta["confirm"]["pytest_tail"])
         meta["ran"] += [f"cd {wt} && python {mdir}/demo.py (clean) -> {rc0}", "git apply patch.diff; pytest test -> " + meta["confirm"]["pytest_tail"], f"demo (mutant) -> {rc1}"]
+        fcntl.flock(lockf, fcntl.LOCK_UN); lockf.close()
     # run the checks against /repo with the patch — or, with --private=<k>, from a private copy of /verif against a private worktree of
     # /repo (so that several evaluations, or an evaluation and a sweep on /repo itself, can run side by side)
     priv = [a.split("=")[1] for a in sys.argv[4:] if a.startswith("--private")]
